@@ -19,11 +19,12 @@ def key_from_seed(seed):
 class Rig:
     """client MemoryAccess on stack A, server MemoryAccess on stack B (J1939-21), scripted serving application"""
 
-    def __init__(self, ex, seed_key=False, client='facade', explore=False, third=False):
+    def __init__(self, ex, seed_key=False, client='facade', explore=False, third=False, cli=CLI):
         self.ex = ex
         w = self.w = W.World(ex, mode='interleave')
         w.branching = bool(explore)
-        self.sa = Stack(w, 'A', CLI)
+        self.sa = Stack(w, 'A', cli)
+        self.cli = cli
         self.sb = Stack(w, 'B', SRV)
         self.sc = Stack(w, 'C', INTR) if third else None
         self.client_kind = client
